@@ -28,6 +28,7 @@ import Sds.Proofs.Select
 import Sds.Proofs.Iter
 import Sds.Proofs.RawVec
 import Sds.Proofs.Glue
+import Sds.Proofs.GenEqIdx
 
 namespace Sds.C01
 open Sds Outcome IterProofs
@@ -338,5 +339,21 @@ example : (BitVector.ofRaw (RawVec.ofBits [true, false, true])).enableAll.select
 example : (BitVector.ofRaw (RawVec.ofBits [true, false, true])).enableAll.selectZeroQ .checked 1 = ok none := by
   decide
 example : predSpec [true, false, true] 1 = some (0, 0) ∧ succSpec [true, false, true] 1 = some (1, 2) := by decide
+
+/-! **`RankSupport::rank` / `rank_unchecked` as translated from the source on this run** (`Generated/FnsIdx.lean`,
+tools/rs2lean.py: the block / word / offset arithmetic, the 9-bit relative-rank extraction, the masked popcount, the three
+additions in the arithmetic of the build mode).  For every support whose block samples leave room for one block
+(`sample + 575 < 2^64` — true of every support built from, or validated against, a vector shorter than 2^64 bits, since
+the sample is a rank), the code as it is NOW is the model function `RankSup.rankU` that `rank_exact`, … above are about;
+the safe variant is the same function with the out-of-range read turned into an index panic. -/
+theorem rank_support_as_translated_from_source (m : Mode) (s : RankSup) (v : RawVec) (i : Nat) (hi : i < U64)
+    (hs : ∀ k (h : k < s.samples.size), (s.samples[k]).1.toNat + 575 < U64) :
+    Generated.gen_RankSupport_rank_unchecked m s v i = RankSup.rankU s v i ∧
+    Generated.gen_RankSupport_rank m s v i = safely (RankSup.rankU s v i) :=
+  ⟨GenEq.rank_unchecked_eq m s v i hs, GenEq.rank_eq_safely m s v i hi (fun h => hs _ h)⟩
+
+/-- the hypothesis is met by a support as built, and the translated code returns the rank -/
+example : Generated.gen_RankSupport_rank_unchecked .checked (RankSup.build (RawVec.ofBits [true, false, true, true]))
+    (RawVec.ofBits [true, false, true, true]) 3 = ok 2 := by decide
 
 end Sds.C01
